@@ -40,7 +40,7 @@ ASSUMPTIONS = ['file clause checked for the default clear_records_on_write=True 
 FLOORS = {'quick': {'agent_steps': 10000, 'records_compared': 5000, 'empty_records_skipped': 500, 'unscheduled_steps': 2000,
                     'mid_step_population_changes': 2000, 'composite_none': 1000, 'composite_dict': 1000, 'shared_composite_dict_calls': 1000, 'history_unchanged_checks': 8000,
                     'file_steps': 4900, 'flushes': 1500, 'conservation_checks': 4900, 'empty_collections': 800, 'opens_observed': 1500,
-                    'killed_children': 20, 'default_priority_runs': 200,
+                    'killed_children': 20, 'default_priority_runs': 200, 'collectors_attached_late': 100, 'late_collector_twin_runs': 100,
                     'reach:Collectors.AgentCollector.collect': 6500, 'reach:Collectors.FileCollector.execute': 4100,
                     'reach:Collectors.FileCollector.write_records': 1800},
           'thorough': {'agent_steps': 1000000, 'file_steps': 500000, 'killed_children': 1500}}
@@ -172,7 +172,11 @@ def case_agent(ctx, case):
     if not default_prio:
         kw['priority'] = cprio
     c = col.AgentCollector(model, f, **kw)
-    model.systems.add_system(c)
+    register_at = rng.choice([0, 0, rng.randint(1, 7)])          # attached after a burn-in (possibly off its own grid)
+    if register_at == 0:
+        model.systems.add_system(c)
+    else:
+        ctx.count('collectors_attached_late')
     if default_prio:
         # a system with the framework's default priority registered AFTER the collector: with default settings the collector
         # still observes the state this system leaves
@@ -181,6 +185,12 @@ def case_agent(ctx, case):
     history = []              # deep copies of records as first seen
     flags = set()
     for t in range(steps):
+        if t == register_at and t:
+            model.systems.add_system(c)
+            if default_prio:
+                # keep the documented situation: a default-priority system registered AFTER the collector
+                model.systems.remove_system('late_default')
+                model.systems.add_system(Churn('late_default', model, late))
         # between-steps change by the driver
         for _ in range(rng.randint(0, 2)):
             aid = rng.choice(ids)
@@ -202,7 +212,7 @@ def case_agent(ctx, case):
             elif kind == 'del' and aid in pop:
                 del pop[aid]
                 ctx.count('mid_step_population_changes'); flags.add('mid')
-        scheduled = start <= t <= end and (t - start) % freq == 0
+        scheduled = t >= register_at and start <= t <= end and (t - start) % freq == 0
         exp = None
         if scheduled:
             rec = {}
@@ -259,6 +269,62 @@ def case_agent(ctx, case):
                                                                              window=(start, end if end < 10 ** 9 else 'forever', freq),
                                                                              priority=c.priority),
                     'records': c.records[:3], 'n_records': len(c.records)})
+
+
+def case_late(ctx, case):
+    """A system registers the collectors while a multi-step execute(n) call is running; the records must be the same as when the
+    same model is advanced one step at a time (and must contain a record for every scheduled step after the registration)."""
+    rng = ctx.rng('late', case['i'])
+    core, col, Val, Churn, NumberedFile = fixtures()
+    tmp = tempfile.mkdtemp(prefix='c17l-')
+    try:
+        tr = rng.randint(1, 5)
+        steps = tr + rng.randint(3, 8)
+        freq = rng.randint(1, 3)
+        wc = rng.choice([0, 1, 2])
+
+        def build(tag):
+            model = core.Model()
+            for j in range(3):
+                a = core.Agent(f'a{j}', model)
+                a.add_component(Val(a, model, j))
+                model.environment.add_agent(a)
+            path = os.path.join(tmp, f'{tag}.txt')
+
+            class Registrar(core.System):
+                def execute(self):
+                    if self.model.systems.timestep == tr:
+                        self.model.systems.add_system(col.AgentCollector(self.model, lambda a: a[Val].v, includeTimstep=True, frequency=freq,
+                                                                         start=tr))
+                        self.model.systems.add_system(NumberedFile('fc', self.model, path, write_count=wc, plan=[1, 2], start=tr))
+
+            model.systems.add_system(Registrar('registrar', model, priority=5))
+            return model, path
+
+        multi, p1 = build('multi')
+        single, p2 = build('single')
+        multi.execute(steps)
+        for _ in range(steps):
+            single.execute()
+        rec_m = multi.systems['AgentCollector'].records
+        rec_s = single.systems['AgentCollector'].records
+        ctx.ev()
+        ctx.count('late_collector_twin_runs')
+        if rec_m != rec_s:
+            raise CaseViolation(f'a collector registered by a system at timestep {tr} of one execute({steps}) call recorded differently than with '
+                                f'{steps} single steps', multi=rec_m[:6], single=rec_s[:6])
+        want = [t for t in range(tr + 1, steps) if (t - tr) % freq == 0]
+        got = [r['timestep'] for r in rec_m]
+        check([t for t in got if t > tr] == want, f'collector registered at t={tr} (frequency {freq}) recorded timesteps {got}; scheduled after '
+              f'the registration step: {want}')
+        fm, fs = multi.systems['fc'], single.systems['fc']
+        tm = open(p1).read() if os.path.exists(p1) else ''
+        ts = open(p2).read() if os.path.exists(p2) else ''
+        check(tm + ''.join(fm.records) == ts + ''.join(fs.records) and tm == ts,
+              'file collector registered mid-call wrote differently than with single steps', multi=tm[-80:], single=ts[-80:])
+        ctx.distinct(('late', tr, steps, freq, wc))
+    finally:
+        shutil.rmtree(tmp, ignore_errors=True)
 
 
 # ---------------------------------------------------------------------------------------------------------------------
@@ -374,7 +440,7 @@ def case_kill(ctx, case):
 
 
 def run_case(ctx, case):
-    {'agent': case_agent, 'file': case_file, 'kill': case_kill}[case['kind']](ctx, case)
+    {'agent': case_agent, 'file': case_file, 'kill': case_kill, 'late': case_late}[case['kind']](ctx, case)
 
 
 def run(ctx):
@@ -384,6 +450,9 @@ def run(ctx):
     for i in range(N_AGENT[ctx.tier]):
         if ctx.mine(i) and not ctx.full():
             ctx.run_case({'kind': 'agent', 'i': i}, run_case)
+    for i in range(N_AGENT[ctx.tier] // 3):
+        if ctx.mine(i) and not ctx.full():
+            ctx.run_case({'kind': 'late', 'i': i}, run_case)
     for i in range(N_FILE[ctx.tier]):
         if ctx.mine(i) and not ctx.full():
             ctx.run_case({'kind': 'file', 'i': i}, run_case)
